@@ -1,2 +1,5 @@
 def run(ctx):
-    return ""
+    """C18.refuse: order statistics (chunk == (None,)) are computed blockwise or refused with ValueError."""
+    from . import plan_proofs
+
+    return plan_proofs.run(ctx, which=("choose_method",), pid="C18")
